@@ -851,3 +851,30 @@ Proof.
   rewrite Hcap. apply Htc.
 Qed.
 End NE6.
+
+(* ---- the same with the GENERATED capacity policy of Open2N2 in place of the hypothesis CalcCapacity(bc, 3) <= 3 * bc ---- *)
+From C12 Require Import Gen_PolicyO2 CapBound.
+
+Section NE7.
+Variable hash : Z -> Z.
+Hypothesis hash_range : forall k, 0 <= hash k < 2 ^ 64.
+
+Theorem migrate_gens_after_growth_decision_o2 fuel ht mc cap0 nl0 cap newL budget gens tnew calls :
+  0 <= newL <= 62 ->
+  pvAddGrow_loop0 3 (fun bc _ => Gen_PolicyO2.CalcCapacity 3 bc) fuel ht mc cap0 nl0 = Ok (None, (cap, newL)) ->
+  gens_ok hash newL gens -> Tinv hash newL tnew ->
+  gtot gens + tot (Z.to_nat (2 ^ newL)) tnew <= mc + 1 ->
+  exists gens' tnew' calls' thrown, migrate_gens hash gens tnew newL budget calls = Ok (gens', tnew', calls', thrown) /\
+    gens_ok hash newL gens' /\ Tinv hash newL tnew' /\ (thrown = false -> gens' = []) /\
+    gtot gens' + tot (Z.to_nat (2 ^ newL)) tnew' = gtot gens + tot (Z.to_nat (2 ^ newL)) tnew /\
+    (forall k, in_gens gens k \/ Present newL tnew k ->
+       exists r, find_gens ((tnew', newL) :: rev gens') k (hash k) = Ok (Some r) /\ gens_hit ((tnew', newL) :: rev gens') k r).
+Proof.
+  intros HnL Hdec Hg Hnew Hsum.
+  destruct (grow_decision 3 (fun bc _ => Gen_PolicyO2.CalcCapacity 3 bc) fuel ht mc cap0 nl0 cap newL Hdec) as [Hlt Hcap].
+  assert (Hpow : 2 ^ newL <= 2 ^ 62) by (apply pow2_le_mono; lia). assert (Hpos : 0 < 2 ^ newL) by (apply pow2_pos; lia).
+  cbv beta in Hcap. rewrite shl1_pow2 in Hcap by lia. rewrite (wrapU_small 64 (2 ^ newL)) in Hcap by (change (2 ^ 64) with (4 * 2 ^ 62); lia).
+  apply (migrate_gens_find_ok hash hash_range newL budget ltac:(lia) gens tnew calls cap ltac:(lia) Hg Hnew ltac:(lia)).
+  rewrite Hcap. apply (calc_capacity_le_slots 3 (2 ^ newL)); lia.
+Qed.
+End NE7.
